@@ -1,0 +1,139 @@
+//go:build verif
+
+// Contracts for gocv (see /verif/DESIGN.md). Comment-only file: takes no part in any build.
+
+package mempool
+
+// ---- collaborators (assumed, reported in evidence) ---------------------------------------------------
+//@ pure func github.com/33cn/chain33/common/address.CheckAddress
+//@ pure func github.com/33cn/chain33/types.CheckTxBlockedAccountImmediate
+//@ pure func (*github.com/33cn/chain33/types.Transaction).From
+//@ pure func (*github.com/33cn/chain33/types.Transaction).Hash
+//@ pure func (*github.com/33cn/chain33/types.Transaction).Tx
+//@ pure func (*github.com/33cn/chain33/types.TransactionCache).Tx
+//@ pure func (*github.com/33cn/chain33/types.Transaction).IsExpire
+//@ pure func (*github.com/33cn/chain33/types.Transaction).GetTxGroup
+//@ pure func (*github.com/33cn/chain33/types.TransactionCache).GetTxGroup
+//@ pure func (*github.com/33cn/chain33/types.TransactionCache).Check
+//@ pure func (*github.com/33cn/chain33/types.TransactionCache).GetTotalFee
+//@ pure func (*github.com/33cn/chain33/types.Transactions).Tx
+//@ pure func (github.com/33cn/chain33/types.TxGroup).Tx
+//@ pure func (github.com/33cn/chain33/types.TxGroup).CheckSign
+//@ pure func (github.com/33cn/chain33/types.TxGroup).GetTxGroup
+//@ pure func github.com/33cn/chain33/types.NewTransactionCache
+//@ pure func github.com/33cn/chain33/types.IsForward2MainChainTx
+//@ pure func github.com/33cn/chain33/types.IsEthSignID
+//@ pure func github.com/33cn/chain33/types.Now
+//@ pure func github.com/33cn/chain33/types.AssertConfig
+//@ pure func github.com/33cn/chain33/common.ToHex
+//@ pure func (github.com/33cn/chain33/queue.Client).GetConfig
+//@ pure func (github.com/33cn/chain33/client.QueueProtocolAPI).GetConfig
+//@ pure func (*github.com/33cn/chain33/types.Chain33Config).GetMaxTxFee
+//@ pure func (*Mempool).TxNumOfAccount
+//@ pure func (*Mempool).GetHeader
+//@ pure func (*Mempool).getLevelFeeRate
+//@ pure func (*Mempool).getCurrentNonce
+//@ pure func (*Mempool).GetAccTxs
+//@ pure func (*github.com/33cn/chain33/queue.Message).Err
+//@ pure func github.com/33cn/chain33/util.CheckDupTx
+
+// ---- C22: a transaction is pushed into the pool only after every check --------------------------------
+// A stage accepts a message by returning it with Data untouched; it rejects by storing the error in Data.
+
+// expiry: judged for the next block (height+1, last block time) and by wall clock for time-based expiry
+//@ func (*Mempool).checkExpireValid [C22]
+//@   opt safety=assumed overflow=assumed
+//@   requires mem.header != nil
+//@   frame nothing
+//@   ensures result ==> !ret(IsExpire)
+//@   assert@call IsExpire: arg2 == mem.header.Height + 1 && arg3 == mem.header.BlockTime
+
+//@ func (*Mempool).CheckExpireValid [C22]
+//@   opt safety=assumed panics=allowed
+//@   frame nothing
+//@   ensures result0 ==> result1 == nil && called(checkExpireValid) && ret(checkExpireValid)
+//@   ensures !result0 ==> result1 != nil
+
+//@ func (*Mempool).checkTx [C22]
+//@   opt safety=assumed panics=allowed
+//@   requires msg != nil
+//@   frame github.com/33cn/chain33/queue.Message.Data
+//@   ensures forall r Int :: r != msg ==> ptr(r, queue.Message).Data == old(ptr(r, queue.Message).Data)
+//@   ensures result == msg
+//@   ensures ret(CheckAddress) != nil ==> msg.Data == types.ErrInvalidAddress
+//@   ensures ret(CheckAddress) == nil && ret(CheckTxBlockedAccountImmediate) != nil ==> msg.Data == ret(CheckTxBlockedAccountImmediate)
+//@   ensures called(TxNumOfAccount) && ret(TxNumOfAccount) >= old(mem.cfg.MaxTxNumPerAccount) ==> msg.Data == types.ErrManyTx
+//@   ensures called(CheckExpireValid) && !ret0(CheckExpireValid) ==> msg.Data == ret1(CheckExpireValid)
+//@   ensures msg.Data == old(msg.Data) || !called(CheckExpireValid) || !ret0(CheckExpireValid)
+//@   assert@call CheckAddress: arg0 == ret(Tx).To
+//@   assert@call CheckTxBlockedAccountImmediate: arg0 == ret(Tx)
+//@   assert@call TxNumOfAccount: arg1 == ret(From)
+
+// tiered fee: the fee must cover the total required at the current pool fee rate
+//@ func (*Mempool).checkLevelFee [C22]
+//@   opt safety=assumed
+//@   frame nothing
+//@   ensures result == nil ==> ret1(GetTotalFee) == nil && tx.Transaction.Fee >= ret0(GetTotalFee)
+//@   assert@call GetTotalFee: arg1 == ret(getLevelFeeRate)
+
+// static checks of a submission: format/fee (Check for the next height with the configured minimum
+// rate), tiered fee when enabled, then checkTx for the transaction or for every member of its group
+//@ func (*Mempool).checkTxs [C22]
+//@   opt safety=assumed panics=allowed overflow=assumed
+//@   requires msg != nil
+//@   ensures result == msg
+//@   ensures old(msg.Data) == nil ==> msg.Data == types.ErrEmptyTx
+//@   ensures called(Check) && ret(Check) != nil ==> msg.Data == ret(Check)
+//@   ensures called(checkLevelFee) && ret(checkLevelFee) != nil ==> msg.Data == ret(checkLevelFee)
+//@   ensures called(Check) && ret(Check) == nil && old(mem.cfg.IsLevelFee) ==> called(checkLevelFee)
+//@   ensures called(GetTxGroup) && ret1(GetTxGroup) != nil ==> msg.Data == ret1(GetTxGroup)
+//@   ensures called(Err, 1) ==> msg.Data == ret(Err, 1)
+//@   ensures called(checkTx, 1) && ret(Err, 0) != nil ==> called(Err, 1)
+//@   assert@call Check: (ret(GetHeader, 0) != nil ==> arg2 == ret(GetHeader, 0).Height + 1) && arg3 == mem.cfg.MinTxFeeRate
+//@   assert@call checkTx#0: ret(Check) == nil && ret1(GetTxGroup) == nil && isnil(ret0(GetTxGroup)) && arg1 == msg
+//@   assert@call checkTx#1: ret(Check) == nil && ret1(GetTxGroup) == nil && cast(arg1.Data, types.Transaction) == ret0(GetTxGroup).Txs[i]
+//@   loop 0 invariant called(checkTx, 1) ==> ret(Err, 0) == nil
+//@   loop 0 invariant !called(Err, 1)
+//@   loop 0 invariant 0 <= i && istype(msg.Data, types.TransactionCache) && cast(msg.Data, types.TransactionCache) == ret(NewTransactionCache)
+
+// signature stage
+//@ func (*Mempool).checkSign [C22]
+//@   opt safety=assumed panics=allowed overflow=assumed
+//@   requires data != nil
+//@   ensures result == data
+//@   assert@call CheckSign: arg1 == mem.currHeight + 1
+//@   ensures !(called(CheckSign) && ret(CheckSign)) ==> data.Data == types.ErrSign
+
+//@ pure func (*Mempool).checkTxListRemote
+//@ pure func time.Sleep
+// pushing changes the pool, not the message
+//@ trusted func (*Mempool).PushTx
+//@   frame ~github.com/33cn/chain33/queue.Message.Data
+//@ trusted func (*Mempool).evmTxNonceCheck
+//@   frame allocates
+//@ trusted func sort.SliceStable
+//@   frame mem:*github.com/33cn/chain33/types.TransactionDetail
+
+// eth-signed senders: the nonce must not be below the sender's current nonce
+//@ func (*Mempool).evmTxNonceCheck [C22]
+//@   opt safety=assumed panics=allowed overflow=assumed
+//@   ensures result == nil && ret(IsEthSignID) && tx != nil ==> called(getCurrentNonce) && old(tx.Nonce) >= ret(getCurrentNonce)
+//@   ensures !ret(IsEthSignID) ==> result == nil
+//@   assert@call getCurrentNonce: arg1 == ret(From, 0)
+//@   loop 0 invariant true
+
+// last stage: duplicates (pool and chain), executor check, nonce check, then - and only then - the push
+//@ func (*Mempool).checkTxRemote [C22]
+//@   opt safety=assumed panics=allowed overflow=assumed
+//@   requires msg != nil
+//@   ensures result == msg
+//@   assert@call PushTx: ret1(GetTxGroup) == nil && ret1(CheckDupTx) == nil && len(ret0(CheckDupTx)) == len(temtxlist.Txs)
+//@   assert@call PushTx: old(mem.cfg.DisableExecCheck) || (called(checkTxListRemote) && ret1(checkTxListRemote) == nil && ret0(checkTxListRemote).Errs[0] == "")
+//@   assert@call PushTx: ret(evmTxNonceCheck) == nil
+//@   assert@call CheckDupTx: arg1 == temtxlist.Txs && arg2 == ret(GetHeader).Height
+//@   assert@call CheckDupTx: isnil(ret0(GetTxGroup)) ==> len(temtxlist.Txs) == 1 && temtxlist.Txs[0] == ret(Tx, 0)
+//@   ensures ret1(GetTxGroup) != nil ==> msg.Data == ret1(GetTxGroup)
+//@   ensures called(CheckDupTx) && ret1(CheckDupTx) != nil ==> msg.Data == ret1(CheckDupTx)
+//@   ensures called(evmTxNonceCheck) && ret(evmTxNonceCheck) != nil ==> msg.Data == ret(evmTxNonceCheck)
+//@   ensures called(PushTx) && ret(PushTx) != nil ==> msg.Data == ret(PushTx)
+//@   ensures called(PushTx) && ret(PushTx) == nil ==> msg.Data == old(msg.Data)
